@@ -146,7 +146,12 @@ impl Sm2PublicKey {
         }
         let s_g = g_mul(&s);
         let t_p = pk.scalar_mul(&t);
-        let p = s_g.point_add(&t_p).to_affine_point();
+        let p = s_g.point_add(&t_p);
+        // [s]G + [t]P = O has no x coordinate: such an (r, s) is not a signature
+        if p.is_zero() {
+            return Err(Sm2Error::InvalidDigest);
+        }
+        let p = p.to_affine_point();
         let x1 = u256_from_be_bytes(&fp_from_mont(&p.x).to_byte_be());
         let e = u256_from_be_bytes(&digest);
         let r1 = fn_add(&x1, &e);
